@@ -244,6 +244,13 @@ fn arbitrary_program_data(input: &[u8]) -> ParseResult<Value<'_>> {
     let (i2, digits) = satisfy(|c| (b'1'..=b'9').contains(&c))(i1)
         .map(|(i, value)| (i, (value - b'0') as usize))?;
 
+    // The length field consists of digits only (no sign). Anything else is an error as
+    // soon as it has arrived, not only once `digits` bytes are there: more input cannot
+    // turn it into a block.
+    if !i2.iter().take(digits).all(u8::is_ascii_digit) {
+        return Err(Error::InvalidCharacterInNumber.into());
+    }
+
     if i2.len() < digits {
         return Err(ParseError::Incomplete);
     }
